@@ -113,7 +113,7 @@ def gen_cases(chk):
         for which in ("likelihood", "prior", "prior_uh", "single"):
             for pool in ("none", "fake"):
                 for vm, fkind in (("auto", "vec"), ("auto", "scalar"), ("force_true", "vec"), ("force_false", "vec"),
-                                  ("auto", "arr1")):
+                                  ("auto", "arr1"), ("auto", "approx")):
                     for k in (0, 1, 3, n + 1):
                         for unit in ((False, True) if which != "single" else (False,)):
                             if chk.tier == "quick" and rng.random() < 0.5:
@@ -121,10 +121,11 @@ def gen_cases(chk):
                             if which == "prior_uh" and unit:
                                 continue
                             cases.append({"kind": "model", "which": which, "n": n, "fvals": fvals, "fkind": fkind,
-                                          "pkind": rng.choice(["vec", "scalar", "arr1"]) if vm == "auto" else fkind,
-                                          "ukind": rng.choice(["vec", "scalar", "arr1"]) if vm == "auto" else fkind,
+                                          "pkind": rng.choice(["vec", "scalar", "arr1", "approx"]) if vm == "auto" else fkind,
+                                          "ukind": rng.choice(["vec", "scalar", "arr1", "approx"]) if vm == "auto" else fkind,
                                           "pool": pool, "n_pool": rng.choice([1, 2, 3, 4]), "chunksize": k,
                                           "vect_mode": vm, "unit": unit, "noise": rng.choice([0, 1, 2, 3, 4]),
+                                          "reuse": rng.random() < 0.5,
                                           "parallelise_prior": rng.random() < 0.5})
     real = []
     for n in ([7] if chk.tier == "quick" else [0, 1, 7, 24]):
@@ -163,6 +164,8 @@ def direct_predicate(c, r):
         return f"raised {r['error']}"
     if r["out"] != r["ref"]:
         return f"batch result {r['out']} != pointwise {r['ref']}"
+    if "out2" in r and r["out2"] != r["ref2"]:
+        return f"batch result on the re-used buffer {r['out2']} != pointwise {r['ref2']} (the buffer was refilled in place)"
     if c["kind"] == "model" and c["which"] in ("likelihood", "single") and r["delta"] != c["n"]:
         return f"likelihood_evaluations grew by {r['delta']} for a batch of {c['n']}"
     if c["kind"] == "model" and c["which"] in ("prior", "prior_uh") and r["delta"] != 0:
